@@ -30,12 +30,14 @@ META = {
                   'decides, per event, whether what was read back / handed to the server / decoded equals the '
                   'specification; failing traces are re-judged under named deviations so that a finding has the '
                   'narrowest signature.',
-    'level_note': 'Bounded: exhaustive histories <= 3 calls over 3 names x 3 casings x 2 values, 2 cookies x 3 attribute '
-                  'sets; generated histories of 7 calls, random ones <= 12 calls; encoding law over all strings of <= 2 '
-                  '(thorough: 3) blocks of a 20-block unicode pool. Codec fidelity (percent-encoding, RFC 6266/8187/8288, '
-                  'HTTP-date, cookie octets) is not re-specified in TLA+: it is the law Decode(emitted) = original with '
-                  'the trusted decoders named in trusted_base. Failed bulk sets and rejected cookie arguments are not '
-                  'driven (outcome not stated by the property). Line order among Set-Cookie lines is a D-clause.',
+    'level_note': 'Bounded: exhaustive histories <= 3 calls (thorough: 4) over {x-a, etag, set-cookie} x 3 casings x '
+                  '2 values, 4 typed settings, 2 links, 3 bulk lists, 2 cookie names x 3 attribute sets, 2 unset forms; '
+                  'generated histories of 7 calls over larger pools (30 typed settings, 8 cookie attribute sets), random '
+                  'ones <= 12 calls; encoding law over all strings of <= 2 (thorough: 3) blocks of a 20-block unicode '
+                  'pool x 9 helpers. Codec fidelity (percent-encoding, RFC 6266/8187/8288, HTTP-date, cookie octets) is '
+                  'not re-specified in TLA+: it is the law Decode(emitted) = original with the trusted decoders named in '
+                  'trusted_base. Failed bulk sets and rejected cookie arguments are not driven (outcome not stated by '
+                  'the property). Order among Set-Cookie lines and Content-Length are D-clauses.',
 }
 
 from engine import drivers
@@ -660,7 +662,7 @@ def judge_all(ctx, items, timeout=1500):
     """items: list of (trace, case).  Judges with the property; re-judges rejected traces under every set of
     named deviations.  Reports violations (with the deviation as signature when one explains the trace)."""
     traces = [t for t, _ in items]
-    verdicts = ctx.judge('RespHeadersTrace', traces, 'RespHeadersTrace.cfg', timeout=timeout, workers=8)
+    verdicts = ctx.judge('RespHeadersTrace', traces, 'RespHeadersTrace.cfg', timeout=timeout, workers=ctx.pick(8, 16))
     bad = []
     rejected = set()
     for i, ((trace, case), v) in enumerate(zip(items, verdicts)):
@@ -682,7 +684,7 @@ def judge_all(ctx, items, timeout=1500):
             path = os.path.join(ctx.scratch, 'rejected-%d.json' % off)
             with open(path, 'w') as f:
                 json.dump([bad[i][0] for i in part], f)
-            r = ctx.tlc('RespHeadersTrace', cfg, env={'TRACE_FILE': path}, workers=8, timeout=timeout, count=False)
+            r = ctx.tlc('RespHeadersTrace', cfg, env={'TRACE_FILE': path}, workers=ctx.pick(8, 16), timeout=timeout, count=False)
             for tag, fields in r.tuples:
                 if tag == 'VERDICT' and len(fields) >= 4 and (fields[1] == 'ok' or fields[1].startswith('D:')):
                     i, k = part[fields[0] - 1], fields[3]
@@ -962,7 +964,7 @@ def run(ctx):
             items[k] = (trace, case)
 
     # ---- leg A1: TLC histories replayed on both Response classes ---------------------------------
-    nsim = ctx.pick(200, 3000)
+    nsim = ctx.pick(200, 2000)
     rs = ctx.tlc('MC_RespHeaders', 'MC_RespHeadersSim.cfg', simulate={'num': nsim}, depth=8, seed=ctx.seed + 1, workers=4,
                  timeout=900, count=False)
     behaviours = {digest(b): b for b in rs.json}
@@ -1010,7 +1012,7 @@ def run(ctx):
     ctx.progress('leg A2 done: %d encoding cases' % nenc)
 
     # ---- leg B: seeded random histories beyond the bound --------------------------------------------
-    nrand = ctx.pick(2500, 60000)
+    nrand = ctx.pick(2500, 40000)
     rng = ctx.rng
     for i in range(nrand):
         calls = random_history(rng)
